@@ -1,6 +1,6 @@
 //! `srv <json>`: drive the real `lsp::server::Server` in-process over an in-memory transport.
 //! {"dir": abs dir for on-disk files, "disk": {rel: text}, "script": [...], "timeout_ms": n}
-//! script steps: ["open", rel, text] | ["change", rel, text] | ["req", id, kind, rel, a, b, c, d] | ["idle"]
+//! script steps: ["open", rel, text] | ["change", rel, text] | ["close", rel] | ["req", id, kind, rel, a, b, c, d] | ["idle"]
 //! Answer: {"msgs": [...], "timeout": bool, "unanswered": [ids]}
 use std::sync::{Arc, Mutex};
 use std::time::{Duration, Instant};
@@ -116,7 +116,8 @@ pub fn run(rest: &str) -> String {
         });
         send(&mut w, json!({"jsonrpc":"2.0","id":"init","method":"initialize","params":{"capabilities":{}}})).await;
         send(&mut w, json!({"jsonrpc":"2.0","method":"initialized","params":{}})).await;
-        let mut version = 1;
+        // versions as editors send them: 1 at didOpen (again after a close), +1 per didChange
+        let mut versions: std::collections::HashMap<String, i64> = std::collections::HashMap::new();
         let mut expected: Vec<Value> = Vec::new();
         let mut timed_out = false;
         let base = counts();
@@ -124,13 +125,21 @@ pub fn run(rest: &str) -> String {
             match step[0].as_str().unwrap_or("") {
                 "open" => {
                     send(&mut w, json!({"jsonrpc":"2.0","method":"textDocument/didOpen","params":{"textDocument":{
-                        "uri": uri(&dir2, step[1].as_str().unwrap_or("")), "languageId":"tablegen","version":version,"text": step[2]}}})).await;
-                    version += 1;
+                        "uri": uri(&dir2, step[1].as_str().unwrap_or("")), "languageId":"tablegen","version":1,"text": step[2]}}})).await;
+                    versions.insert(step[1].as_str().unwrap_or("").to_string(), 1);
+                }
+                "close" => {
+                    send(&mut w, json!({"jsonrpc":"2.0","method":"textDocument/didClose","params":{"textDocument":{
+                        "uri": uri(&dir2, step[1].as_str().unwrap_or(""))}}})).await;
                 }
                 "change" => {
+                    let version = {
+                        let v = versions.entry(step[1].as_str().unwrap_or("").to_string()).or_insert(1);
+                        *v += 1;
+                        *v
+                    };
                     send(&mut w, json!({"jsonrpc":"2.0","method":"textDocument/didChange","params":{"textDocument":{
                         "uri": uri(&dir2, step[1].as_str().unwrap_or("")), "version":version},"contentChanges":[{"text": step[2]}]}})).await;
-                    version += 1;
                 }
                 "req" => {
                     expected.push(step[1].clone());
